@@ -55,7 +55,7 @@ PROPS["C04"] = {
 PROPS["C05"] = {
     "module": "CqlVerif.Props.C05",
     "gens": ["policy"],
-    "streams": [RETRY_STREAM, SCHED_STREAM],
+    "streams": [RETRY_STREAM, SCHED_STREAM, {"name": "lb", "quick": 3000, "thorough": 300000}],
     "claim": "Lean theorems over the generated policy (closed forms for all retry counts and field values) and over Model/Retry: attempts_bounded, failover_success, terminates; tied to the code by the policy translator and the e2e retry stream (ordered host/outcome traces vs the model)",
     "note": "trusted: Lean kernel, translator, hand-written model + e2e correspondence; leastBusyConn tie-breaking is compared but not specified",
     "rule": RETRY_RULE,
@@ -86,7 +86,8 @@ PROPS["C01"] = {
 PROPS["C02"] = {
     "module": "CqlVerif.Props.C02",
     "gens": ["policy"],
-    "streams": [CORE_STREAM, STORM_STREAM, {"name": "late", "quick": 40, "thorough": 3000}, {"name": "bytes", "quick": 300, "thorough": 20000}],
+    "race": True,
+    "streams": [CORE_STREAM, STORM_STREAM, {"name": "late", "quick": 40, "thorough": 3000}, {"name": "bytes", "quick": 300, "thorough": 20000}, {"name": "race", "quick": 0, "thorough": 20, "cache": False, "confirm": False}],
     "shrink": False,
     "claim": "Lean theorems streams_partition, wire_matches_pending and route_correct over Model/Core for all interleavings, stream-id choices, recycling and exhaustion; tied to the code by the core and storm e2e streams (tokens echoed by the backends, Routed oracle) and by the late stream (one backend connection over histories of thousands of requests: internal requests abandoned by their caller and answered late while the 2048 stream ids are recycled)",
     "note": "trusted: Lean kernel, hand-written model + e2e correspondence; sync.Map/channel linearizability assumed; backends that answer a stream twice are C17's subject",
@@ -130,7 +131,7 @@ PROPS["C14"] = {
 
 PROPS["C07"] = {
     "module": "CqlVerif.Props.C07",
-    "streams": [{"name": "ks", "quick": 800, "thorough": 30000}],
+    "streams": [{"name": "ks", "quick": 800, "thorough": 30000}, {"name": "gate", "quick": 300, "thorough": 6000}],
     "shrink": False,
     "claim": "Lean theorems forward_uses_current, use_failure_frame, use_success (reply names the keyspace as the backend would; only this client's state changes), getSession_spec (session_key_inv / pool_conn_keyspace) over Model/Keyspace for all interleaved histories; tied to proxy.go/session.go/connpool.go by the ks e2e stream: fakecass tags each connection with (keyspace, version, compression) and logs them per tokenised request",
     "note": "trusted: Lean kernel, hand-written model + e2e correspondence (sequentialised histories); the fake backend implements CQL identifier rules (unquote / lower-case); simultaneous USE of one new keyspace by many clients is covered by the race run of C18, not here",
